@@ -22,29 +22,35 @@ Qed.
 (* the digits produced for n (fuel large enough) read back as n *)
 Lemma n_to_dec_fuel_spec : forall f n acc, n < 10 ^ N.of_nat f -> (0 < f)%nat ->
   exists ds, n_to_dec_fuel f n acc = ds ++ acc /\ ds <> [] /\ forallb is_digit ds = true /\
-             forall a, digits_val_acc a ds = Some (a * 10 ^ N.of_nat (length ds) + n).
+             (forall a, digits_val_acc a ds = Some (a * 10 ^ N.of_nat (length ds) + n)) /\
+             (n <> 0 -> forall b r, ds = b :: r -> b <> 48).
 Proof.
   induction f as [|f IH]; intros n acc Hn Hf; [lia|].
   cbn [n_to_dec_fuel]. destruct (digit_of_mod n) as [Hd Hv].
   destruct (n / 10 =? 0) eqn:Hq.
-  - exists [48 + n mod 10]. repeat split; try discriminate.
+  - assert (Hq0 : n / 10 = 0) by lia.
+    assert (Hdm0 : n = 10 * (n / 10) + n mod 10) by (apply N.div_mod; discriminate).
+    exists [48 + n mod 10]. split; [reflexivity|]. split; [discriminate|]. split; [|split].
     + cbn [forallb]. rewrite Hd. reflexivity.
     + intros a. cbn [digits_val_acc length]. rewrite Hd, Hv. f_equal.
-      assert (n / 10 = 0) by lia. assert (n = 10 * (n / 10) + n mod 10) by (apply N.div_mod; discriminate).
       change (N.of_nat 1) with 1. rewrite N.pow_1_r. lia.
+    + intros Hn0 b r E. apply (f_equal (hd 0)) in E. cbn [hd] in E. rewrite <- E.
+      assert (Hm : n mod 10 = n) by (rewrite Hq0 in Hdm0; lia). rewrite Hm. lia.
   - assert (Hq' : n / 10 <> 0) by lia.
     assert (Hdm : n = 10 * (n / 10) + n mod 10) by (apply N.div_mod; discriminate).
     assert (Hlt : n / 10 < 10 ^ N.of_nat f).
     { rewrite Nat2N.inj_succ, N.pow_succ_r' in Hn. apply N.div_lt_upper_bound; [discriminate|exact Hn]. }
     assert (Hf' : (0 < f)%nat).
     { destruct f; [|lia]. cbn in Hlt. lia. }
-    destruct (IH (n / 10) ((48 + n mod 10) :: acc) Hlt Hf') as [ds [He [Hne [Hall Hval]]]].
-    exists (ds ++ [48 + n mod 10]). repeat split.
+    destruct (IH (n / 10) ((48 + n mod 10) :: acc) Hlt Hf') as [ds [He [Hne [Hall [Hval Hlead]]]]].
+    exists (ds ++ [48 + n mod 10]). split; [|split; [|split; [|split]]].
     + rewrite He, <- app_assoc. reflexivity.
     + destruct ds; discriminate.
     + rewrite forallb_app, Hall. cbn [forallb]. rewrite Hd. reflexivity.
     + intros a. rewrite digits_val_acc_app, Hval. cbn [digits_val_acc]. rewrite Hd, Hv. f_equal.
       rewrite app_length. cbn [length]. rewrite Nat.add_1_r, Nat2N.inj_succ, N.pow_succ_r'. lia.
+    + intros _ b r E. destruct ds as [|b' r']; [contradiction|]. cbn [app] in E.
+      apply (f_equal (hd 0)) in E. cbn [hd] in E. rewrite <- E. apply (Hlead Hq' b' r' eq_refl).
 Qed.
 
 Lemma pos_lt_pow2_size p : N.pos p < 2 ^ N.of_nat (Pos.size_nat p).
@@ -67,9 +73,17 @@ Lemma n_to_dec_spec n :
   n_to_dec n <> [] /\ forallb is_digit (n_to_dec n) = true /\ digits_val (n_to_dec n) = Some n.
 Proof.
   unfold n_to_dec.
-  destruct (n_to_dec_fuel_spec (S (N.size_nat n)) n [] (n_lt_pow10_fuel n) ltac:(lia)) as [ds [He [Hne [Hall Hval]]]].
+  destruct (n_to_dec_fuel_spec (S (N.size_nat n)) n [] (n_lt_pow10_fuel n) ltac:(lia)) as [ds [He [Hne [Hall [Hval _]]]]].
   rewrite He, app_nil_r. repeat split; [exact Hne|exact Hall|].
   unfold digits_val. destruct ds; [contradiction|]. rewrite Hval. f_equal; lia.
+Qed.
+
+(* no leading zero *)
+Lemma n_to_dec_lead_nonzero n : n <> 0 -> forall b r, n_to_dec n = b :: r -> b <> 48.
+Proof.
+  intros Hn b r E. unfold n_to_dec in E.
+  destruct (n_to_dec_fuel_spec (S (N.size_nat n)) n [] (n_lt_pow10_fuel n) ltac:(lia)) as [ds [He [_ [_ [_ Hl]]]]].
+  rewrite He, app_nil_r in E. apply (Hl Hn b r E).
 Qed.
 
 Open Scope Z_scope.
